@@ -21,6 +21,14 @@ def classify(op, m):
     return f'{t[0]}:{t[1] if t[0].startswith("bundle.write") else "file"}:{m.split(" ")[0]}'
 
 
+ODD_BUNDLE_URLS = [(b'https://example.com/files/a%2Fb.html', b'https://example.com/files/a/b.html'), (b'https://example.com/p%24q', b'https://example.com/p$q'),
+                   (b'https://example.com/search?', b'https://example.com/search'), (b'https://example.com/a%3Fb', b'https://example.com/a?b'), (b'https://example.com/%7Euser/', b'https://example.com/~user/'),
+                   (b'https://example.com/caf%c3%a9', b'https://example.com/caf%C3%A9'), (b'https://example.com/x%41', b'https://example.com/xA'), (b'https://EXAMPLE.com/Up', b'https://example.com/Up'),
+                   (b'https://example.com:443/d', b'https://example.com/d'), (b'https://example.com/a//b', b'https://example.com/a/b'), (b'https://example.com/a/./b', b'https://example.com/a/b'),
+                   (b"https://example.com/it's!/*.txt", b"https://example.com/it%27s%21/%2A.txt"), (b'https://example.com/wiki/Go_(game)', b'https://example.com/wiki/Go_%28game%29'),
+                   (b'https://example.com', b'https://example.com/')]
+
+
 def gen_bundles(rng, w, thorough):
     out = []
     for ver in ('b1', 'b2'):
@@ -63,6 +71,15 @@ def gen_bundles(rng, w, thorough):
                    [(b'X-K', [b'v', b'w']), (b'x-k', [b'v', b'w'])], [(b'X-K', [b'v,w']), (b'x-k', [b'v', b'w'])], [(b'X-K', [b'']), (b'x-k', [b''])]):
             out.append(bundle(ver, b'https://example.com/', None, None, [exch(b'https://example.com/', 200, hs, b'x'), exch(b'https://example.com/2', 200, [(b'Ok', [b'1'])], b'y')]))
         out.append(bundle(ver, b'https://example.com/', b'https://example.com/m', None, []))
+        # URL spellings that re-assembling a url.URL from its parts does not reproduce (RawPath, ForceQuery, host case, empty path ...):
+        # as primary URL, as manifest URL and as exchange URL, next to the exchange the re-spelled URL would name
+        for u, sib in ODD_BUNDLE_URLS:
+            exs2 = [exch(u, 200, [(b'X-U', [b'odd'])], b'odd spelling'), exch(sib, 200, [(b'X-U', [b'sibling'])], b'sibling')] if sib != u else [exch(u, 200, [], b'odd spelling')]
+            out.append(bundle(ver, u, None, None, exs2))
+            out.append(bundle(ver, b'https://example.com/', u if ver == 'b1' else None, None, list(reversed(exs2))))
+        # optional / positional fields left out (b1: the primary URL is a positional element of the top-level array)
+        out.append(bundle(ver, None, None, None, [exch(b'https://example.com/', 200, [], b'x')]))
+        out.append(bundle(ver, None, b'https://example.com/m' if ver == 'b1' else None, None, []))
         out.append(bundle(ver, b'relative/primary', None, None, []))
         out.append(bundle(ver, None, None, None, []) if ver == 'b2' else bundle(ver, b'', None, None, []))
     # b1 variants
